@@ -38,7 +38,8 @@ TraceNext == \/ /\ l = 0
 
 \* the canonical first loads: documented spelling, empty home, unpack off
 Canonical == {i \in 1..N : /\ Trace[i].fn = "load" /\ Trace[i].doc = "remote" /\ Trace[i].mode = "fresh"
-                           /\ Trace[i].name = Trace[i].canon /\ ~Trace[i].unpack /\ Trace[i].outcome = "ok"}
+                           /\ Trace[i].name = Trace[i].canon /\ ~Trace[i].unpack /\ Trace[i].outcome = "ok"
+                           /\ ~Trace[i].neg}          \* (a negative control must not disturb the real events)
 Others(e) == {i \in Canonical : Trace[i].canon # e.canon}
 SeqSet(s) == {s[k] : k \in 1..Len(s)}
 Form(e)   == IF e.unpack THEN "pair" ELSE "array"
